@@ -16,6 +16,7 @@
 
 use crate::dewey::{dewey_cmp, Dewey, DeweyError, DeweyOp, DeweyVersion};
 use crate::PkgName;
+use std::collections::HashSet;
 use thiserror::Error;
 
 #[derive(Clone, Debug, Default, Eq, Hash, PartialEq)]
@@ -298,33 +299,50 @@ impl Pattern {
      * verified that the pattern is valid and the braces are correctly balanced.
      *
      * The algorithm starts at the right-most opening brace and iteratively works
-     * backwards, expanding each alternate match and recursively calling Pattern
-     * to verify that there is a match.
+     * backwards, expanding each alternate match and finally using Pattern to
+     * verify whether any of the fully expanded strings is a match.
      */
     fn alternate_match(pattern: &str, pkg: &str) -> bool {
         /*
-         * Only the right-most opening brace is expanded at this level: its
-         * group cannot contain a nested group, so the first closing brace
-         * after it is its own, and the recursive call expands the remaining
-         * groups.  Pairing any other opening brace with that closing brace
-         * would produce strings that are not part of the expansion, e.g.
-         * "{a{b,c},d}" must not expand to "ad".
+         * Expand using an explicit work list rather than by recursing through
+         * Pattern::matches(): deeply nested groups would otherwise overflow
+         * the stack, and remembering which strings have already been produced
+         * stops nested alternatives such as "{a,{a,{a,b}}}" from being
+         * expanded an exponential number of times.
          */
-        for (i, _) in pattern.rmatch_indices('{').take(1) {
+        let mut todo = vec![pattern.to_string()];
+        let mut seen: HashSet<String> = HashSet::new();
+        while let Some(pattern) = todo.pop() {
+            /*
+             * Only the right-most opening brace is expanded at each step: its
+             * group cannot contain a nested group, so the first closing brace
+             * after it is its own, and the remaining groups are expanded by
+             * later steps.  Pairing any other opening brace with that closing
+             * brace would produce strings that are not part of the expansion,
+             * e.g. "{a{b,c},d}" must not expand to "ad".
+             */
+            let Some(i) = pattern.rfind('{') else {
+                /* Fully expanded, match it as a pattern in its own right. */
+                if let Ok(pat) = Pattern::new(&pattern) {
+                    if pat.matches(pkg) {
+                        return true;
+                    }
+                }
+                continue;
+            };
             let (first, rest) = pattern.split_at(i);
             /* This shouldn't fail as new() already verified, but... */
             let Some(n) = rest.find('}') else {
-                return false;
+                continue;
             };
             let (matches, last) = rest.split_at(n + 1);
             let matches = &matches[1..matches.len() - 1];
 
             for m in matches.split(',') {
                 let fmt = format!("{}{}{}", first, m, last);
-                if let Ok(pat) = Pattern::new(&fmt) {
-                    if pat.matches(pkg) {
-                        return true;
-                    }
+                if Self::quick_pkg_match(&fmt, pkg) && seen.insert(fmt.clone())
+                {
+                    todo.push(fmt);
                 }
             }
         }
